@@ -252,6 +252,11 @@ pub fn gen_anchored(rng: &mut Rng, pools: &Pools) -> Case {
             core_alpha.push(*rng.pick(&pools.moved));
         }
     }
+    if rng.chance(1, 3) {
+        for _ in 0..rng.range(1, 3) {
+            core_alpha.push(*rng.pick(ASCII_POOL) as char);
+        }
+    }
     if rng.coin() {
         rng.shuffle(&mut core_alpha);
         core_alpha.truncate(rng.range(2, 5));
